@@ -311,7 +311,7 @@ def classify_while(loop, f, model, cg, sentinel_ok=None):
                 if isinstance(n, ast.Call) and isinstance(n.func, ast.Attribute) and n.func.attr.startswith('read_') \
                         and isinstance(n.func.value, ast.Name) and n.func.value.id in ('self', 'decoder'):
                     reads.append(n)
-        brk = any(isinstance(n, ast.Break) for s in body for n in [s] + list(walk_no_nested(s)))
+        brk = any(isinstance(n, (ast.Break, ast.Return, ast.Raise)) for s in body for n in [s] + list(walk_no_nested(s)))      # leaving the function leaves the loop
         if reads and brk and not _has_continue(body):
             return 'T-READ', True, 'every iteration performs the guarded consuming read %s before the exit test' % ast.unparse(reads[0].func)
         if reads and not brk:
